@@ -3,8 +3,12 @@ use crate::{
     scheduler::{Process, Runtime, Task},
     store::Store,
 };
+use crate::sync::Mutex;
 use moka::sync::Cache as MokaCache;
-use std::sync::Arc;
+use std::{
+    collections::HashMap,
+    sync::{Arc, Weak},
+};
 use tracing::{debug, error, instrument};
 
 #[derive(Clone)]
@@ -12,6 +16,9 @@ pub struct Cache {
     cap: usize,
     procs: MokaCache<String, Arc<Process>>,
     store: Arc<Store>,
+    // the processes that are still alive somewhere (queued tasks keep their process alive),
+    // a process that is evicted while it is in use must not be loaded a second time
+    live: Arc<Mutex<HashMap<String, Weak<Process>>>>,
 }
 
 impl std::fmt::Debug for Cache {
@@ -29,6 +36,7 @@ impl Cache {
             cap,
             procs: MokaCache::new(cap as u64),
             store: Arc::new(Store::new()),
+            live: Arc::new(Mutex::new(HashMap::new())),
         }
     }
 
@@ -71,6 +79,12 @@ impl Cache {
         match self.get_proc(pid) {
             Some(proc) => Some(proc.clone()),
             None => {
+                // evicted from the cache but still in use: take the living one
+                let alive = self.live.lock().unwrap().get(pid).and_then(|p| p.upgrade());
+                if let Some(proc) = alive {
+                    self.procs.insert(pid.to_string(), proc.clone());
+                    return Some(proc);
+                }
                 if let Some(proc) = self.store.load_proc(pid, rt).unwrap_or_else(|err| {
                     error!("cache.process store.loadproc={}", err);
                     eprintln!("cache.process store.loadproc={}", err);
@@ -91,6 +105,7 @@ impl Cache {
     pub fn remove(&self, pid: &str) -> Result<bool> {
         debug!("remove pid={pid}");
         self.procs.remove(pid);
+        self.live.lock().unwrap().remove(pid);
         self.store.remove_proc(pid)?;
         Ok(true)
     }
@@ -129,6 +144,7 @@ impl Cache {
     #[cfg(feature = "verif")]
     pub fn verif_uncache(&self, pid: &str) {
         self.procs.remove(pid);
+        self.live.lock().unwrap().remove(pid);
     }
 
     fn get_proc(&self, pid: &str) -> Option<Arc<Process>> {
@@ -143,6 +159,9 @@ impl Cache {
                 .expect("fail to upsert process");
         }
         self.procs.insert(proc.id().to_string(), proc.clone());
+        let mut live = self.live.lock().unwrap();
+        live.retain(|_, p| p.strong_count() > 0);
+        live.insert(proc.id().to_string(), Arc::downgrade(proc));
     }
 
     pub(super) fn push_task_pri(&self, task: &Arc<Task>, save: bool) -> Result<()> {
